@@ -167,7 +167,7 @@ func collectLengths(nodes []*rc.Node, out *[]*rc.Node) {
 
 func genCases(seed int64, thorough bool, tis []*tinfo) []dcase {
 	var cases []dcase
-	nVals := 4
+	nVals := 12
 	if thorough {
 		nVals = 40
 	}
@@ -223,6 +223,13 @@ func genCases(seed int64, thorough bool, tis []*tinfo) []dcase {
 				}
 				if n.Type == rc.TString1 {
 					news = []int64{int64(cur + 1), 255, int64(min(255, remaining+1))}
+				}
+				// small inflations that swallow the following bytes and let the parse re-synchronise
+				// somewhere else (this is how the two-byte-head rewind defect was met)
+				for d := 2; d <= 6; d++ {
+					if n.Type != rc.TString1 || cur+d <= 255 {
+						news = append(news, int64(cur+d))
+					}
 				}
 				for _, nl := range news {
 					if nl <= int64(cur) {
@@ -326,6 +333,16 @@ func runCase(rep reporter, c *dcase) {
 	}
 	nodes, stop, perr := rc.ParseFieldsPrefix(input)
 	want, werr := rc.DecodeNodes(c.ti.s, nodes)
+	if de, ok := werr.(*rc.DecodeError); ok && de.Pairing && perr == nil && stop == len(input) {
+		// The damaged input is still a complete, well-formed field sequence in which nothing is cut
+		// short and nothing announces more than remains (an inflated length swallowed its neighbours
+		// and the parse re-synchronised), so the property's antecedent does not hold.  The reference
+		// pairs map entries positionally and refuses this input; a reader using the format's
+		// sequential rule (skip smaller tags between key and value) reads it differently, and the
+		// property does not choose between the two.  Counted, not judged.
+		rep.Add("wellformed_after_resync_not_judged", 1)
+		return
+	}
 	if werr != nil {
 		w := wit()
 		w["decoded"], w["reference"] = rc.Render(c.ti.st, got), fmt.Sprintf("complete fields end at offset %d (%v); %v", stop, perr, werr)
